@@ -151,7 +151,7 @@ def scan_obligations(unit):
         for a, b in items:
             ordn += 1
             sl, el = lineno(a), lineno(b - 1)
-            lab = re.search(r'//#([\w.\-]+)', lines[sl - 1])
+            lab = re.search(r'//#([\w.\-]+)', '\n'.join(lines[sl - 1:el]))
             clauses.append(Clause(f['name'], kind if not inside_body else kind, ordn, sl, el,
                                   norm(text[a:b])[:300], lab.group(1) if lab else None,
                                   loop=loop_no if inside_body else None))
@@ -192,9 +192,12 @@ class UnitResult:
     pass
 
 
-def write_unit(unit, fname, vacuity=False):
+def write_unit(unit, fname, vacuity=False, blank=()):
     os.makedirs(BUILD, exist_ok=True)
     lines = [l.text for l in unit.lines]
+    for a, b in blank:                      # clause line ranges (1-based, inclusive) to leave out
+        for k in range(a - 1, b):
+            lines[k] = ''
     marks = {}
     if vacuity:
         _, _, _, fns = scan_obligations(unit)
@@ -248,11 +251,24 @@ def classify(msg):
     return None
 
 
-def verify_unit(name, timeout=600, rlimit=None):
-    """generate + verify + map.  Raises LostAnchor from generation."""
+def clause_ranges(clauses, names, invert_for_fns=False):
+    """line ranges of the ensures clauses named in `names`; with invert_for_fns: all OTHER ensures
+    clauses of the functions that own a named clause"""
+    picked = [c for c in clauses if c.name() in names]
+    if not invert_for_fns:
+        return [(c.start, c.end) for c in picked]
+    fns = set(c.fn for c in picked)
+    return [(c.start, c.end) for c in clauses if c.fn in fns and c.kind == 'ensures' and not c.loop and c.name() not in names]
+
+
+def verify_unit(name, timeout=600, rlimit=None, known=()):
+    """generate + verify + map.  Raises LostAnchor from generation.
+    known: names of ensures clauses listed as known findings.  They are left out of the main run (so that
+    everything else can be discharged) and checked on their own in a second run, where they must fail."""
     unit = Unit(name)
     clauses, asserts, groups, fns = scan_obligations(unit)
-    path, _ = write_unit(unit, name + '.rs')
+    known = set(n for n in known if any(c.name() == n for c in clauses))
+    path, _ = write_unit(unit, name + '.rs', blank=clause_ranges(clauses, known))
     r = run_verus(path, timeout=timeout, rlimit=rlimit)
     if rlimit is None and any(d.get('level') == 'error' and re.search(RESOURCE, d.get('message', ''), re.I) for d in r['diags']):
         # a query that hits the default resource limit is retried once with a 10x budget before it counts as undecided
@@ -382,6 +398,29 @@ def verify_unit(name, timeout=600, rlimit=None):
         for n in res.status:
             if res.status[n] == 'discharged':
                 res.status[n] = 'unknown'
+    # second run: the known-finding clauses on their own
+    res.known_checked = {}
+    if known:
+        p2, _ = write_unit(unit, name + '_findings.rs', blank=clause_ranges(clauses, known, invert_for_fns=True))
+        r2 = run_verus(p2, timeout=timeout, rlimit=rlimit)
+        base2 = os.path.basename(p2)
+        for n in known:
+            res.status[n] = 'unknown'
+            res.known_checked[n] = 'no-longer-fails'
+        for d in r2['diags']:
+            if d.get('level') != 'error' or classify(d.get('message', '')) != 'ensures':
+                continue
+            spans = d.get('spans', [])
+            for ch in d.get('children', []):
+                spans = spans + ch.get('spans', [])
+            ours = [sp for sp in spans if os.path.basename(sp.get('file_name', '')) == base2]
+            for c in clauses:
+                if c.name() in known and any(c.start <= sp['line_start'] <= c.end for sp in ours):
+                    ex = [sp for sp in ours if not (c.start <= sp['line_start'] <= c.end)]
+                    site = norm(unit.lines[ex[0]['line_start'] - 1].text) if ex and unit.origin(ex[0]['line_start'])[0] in ('S', 'S+T') else ''
+                    res.failures.append(Failure(c.name(), 'ensures', d.get('message', ''), site, d.get('rendered', '')[:4000], c.fn))
+                    res.status[c.name()] = 'failed'
+                    res.known_checked[c.name()] = 'fails'
     return res
 
 
